@@ -275,6 +275,8 @@ MUTANTS: Dict[str, List[M]] = {
         ("check_overwrite ignores existing files", "_core.py", "            if not overwrite and os.path.isfile(path.absolute):\n                raise ValueError", "            if not overwrite and os.path.isdir(path.absolute):\n                raise ValueError", "C18.b"),
     ],
     "C19": [
+        ("path type_check accepts anything path-like (seed C19-8C on the code after F57)", "typing.py", "    return isinstance(value, type_class)\n\n\ndef path_type", "    return isinstance(value, os.PathLike)\n\n\ndef path_type", "C19.b"),
+        ("ancestor walk is a single step (seed C19-8B)", "_util.py", "while not os.path.isdir(pdir) and pdir != ppdir:", "if not os.path.isdir(pdir) and pdir != ppdir:", "C19.b"),
         ("config file merged outside its directory", "_actions.py", "            with change_to_path_dir(cfg_path):  # 'key+' appends of the file are adapted while merging\n                cfg_merged = parser.merge_config(cfg_file, cfg)", "            cfg_merged = parser.merge_config(cfg_file, cfg)", "C19.c"),
         ("original text re-interpreted inside the file's directory", "_typehints.py", "                        if isinstance(orig_val, str):\n                            val = adapt_typehints(orig_val, self._typehint, default=self.default, **kwargs)", "                        if isinstance(orig_val, str):\n                            with change_to_path_dir(config_path):\n                                val = adapt_typehints(orig_val, self._typehint, default=self.default, **kwargs)", "C19.c"),
         ("R tests W_OK", "_util.py", 'if "R" in mode and os.access(abs_path, os.R_OK):', 'if "R" in mode and os.access(abs_path, os.W_OK):', "C19.b"),
@@ -285,6 +287,8 @@ MUTANTS: Dict[str, List[M]] = {
         ("D lost its check", "_util.py", '            if "D" in mode and os.path.isdir(abs_path):', '            if "D" in mode and os.path.isfile(abs_path):', "C19.b"),
     ],
     "C20": [
+        ("path type_check ignores the registered class again (F57)", "typing.py", "    return isinstance(value, type_class)\n\n\ndef path_type", "    return isinstance(value, Path)\n\n\ndef path_type", "C20.c.iv"),
+        ("Decimal deserializer normalises", "typing.py", "    return Decimal(repr(value) if isinstance(value, float) else value)\n", "    return Decimal(repr(value) if isinstance(value, float) else value).normalize()\n", "C20.c.i"),
         ("Decimal dumped as float without read-back", "typing.py", "    return number if decimal_deserializer(number) == value else str(value)", "    return number", "C20.c.i"),
         ("Decimal registered with float again", "typing.py", '    "decimal.Decimal",\n    decimal_serializer,\n    decimal_deserializer,', '    "decimal.Decimal",\n    float,\n    decimal_deserializer,', "C20.c.i"),
         ("Decimal built from the binary float", "typing.py", "    return Decimal(repr(value) if isinstance(value, float) else value)", "    return Decimal(value)", "C20.c.i"),
